@@ -153,29 +153,66 @@ def run(prog, ctx):
                 res.undecided += 1
     res.rule("C06.O", n_o, 3, "matrix stores in the or_* routines")
     n_c = 0
+    # call sites of the OR routines: the row mask the callee applies (from its mask / lg parameter, whichever it takes) must be
+    # (rows of the destination matrix) - 1.  By value: the callee's mask expression is evaluated on the caller's actual argument,
+    # with distinct values for distinct leaves, and compared with the destination's row count (2^self.lg_k for the union's own
+    # matrix, the allocation size for a fresh one).
+    def mask_param(g):
+        for (_b, base, ie, _val, _span, _s) in C.buffer_stores(prog, g):
+            if base[0] != "param":
+                continue
+            for t in sym.walk(ie):
+                if C.is_bin(t, "BitAnd"):
+                    for side in (t[2], t[3]):
+                        lv = formula.top_leaves(side)
+                        if len(lv) == 1:
+                            x = next(iter(lv.values()))
+                            if x[0] == "param" and x[1] != base[1]:
+                                return base[1], x[1], side, next(iter(lv))
+        return None
     for f in ufns:
         s = Sym(prog, f)
         for b, site in f.calls():
             cal = site.get("callee") or ""
-            if cal.startswith("cpc::union::or_") and len(site["args"]) >= 2:
-                n_c += 1
-                res.obligations += 1
-                a0 = C.resolve_var(prog, f, s.operand(site["args"][0]), s)
-                a1 = s.operand(site["args"][1])
-                alloc = C.find_sub(a0, lambda t: t[0] == "call" and t[1].endswith("from_elem"))
-                if alloc is not None:
-                    want = C.shl_one_amount(alloc[2][1])
-                    ok = want == a1
-                    wtxt = show(want) if want else "?"
-                else:
-                    ok = (a1[0] == "field" and a1[2] == "lg_k" and a1[1][0] == "param" and a1[1][1] == 1)
-                    wtxt = "self.lg_k"
-                if ok:
-                    res.discharged += 1
-                elif sym.contains(a1, lambda t: t[0] == "var") or (alloc is not None and want is None):
-                    res.undecided += 1
-                else:
-                    res.violate("C06.O", "C06.O|%s|dst-lg" % f.id, "%s passes lg %s with a destination matrix of lg %s" % (f.id, show(a1), wtxt), f.id, site["span"])
+            g = prog.fns.get(cal)
+            if g is None or not cal.startswith("cpc::union::") or len(site["args"]) < 2 or g.kind != "fn":
+                continue
+            mp = mask_param(g)
+            if mp is None:
+                continue
+            d_idx, p_idx, mexpr, pkey = mp
+            if max(d_idx, p_idx) > len(site["args"]):
+                continue
+            n_c += 1
+            a0 = C.resolve_var(prog, f, s.operand(site["args"][d_idx - 1]), s)
+            a1 = s.operand(site["args"][p_idx - 1])
+            alloc = C.find_sub(a0, lambda t: t[0] == "call" and t[1].endswith("from_elem"))
+            if alloc is not None:
+                size_e, wtxt = alloc[2][1], show(alloc[2][1])
+            elif a0[0] == "field" and a0[1][0] == "param" and a0[1][1] == 1:
+                size_e, wtxt = ("bin", "Shl", ("const", 1), ("field", ("param", 1, f.local_name(1) or "self"), "lg_k")), "2^self.lg_k"
+            else:
+                res.tri(None, "C06.O", "C06.O|%s|dst-lg" % f.id, "destination of %s not recognised" % cal, f.id, site["span"])
+                continue
+            leaves = sorted(set(formula.top_leaves(size_e)) | set(formula.top_leaves(a1)))
+            verdict, wit = None, ""
+            try:
+                verdict = True
+                for base_v in (5, 9):
+                    env = {"@prog": prog}
+                    for i, k in enumerate(leaves):
+                        env[k] = base_v + 2 * i
+                    if "self.lg_k" not in env:
+                        env["self.lg_k"] = base_v + 2 * len(leaves)
+                    size = formula.evaluate(size_e, env)
+                    act = formula.evaluate(a1, env)
+                    mask = formula.evaluate(mexpr, {pkey: act, "@prog": prog})
+                    if mask != size - 1:
+                        verdict, wit = False, "%s applies the row mask %#x to a destination of %d rows (argument %s, destination %s)" % (cal, mask, size, show(a1), wtxt)
+                        break
+            except (formula.Uneval, TypeError):
+                verdict = None
+            res.tri(verdict, "C06.O", "C06.O|%s|dst-lg" % f.id, "%s: %s" % (f.id, wit), f.id, site["span"])
     # source-side lg arguments read from `self` must be the value the source matrix was built with: no store to that field
     # may reach the call (the read is flow-insensitive in the provenance DAG, so this is checked on the CFG)
     for f in ufns:
